@@ -29,6 +29,13 @@ class Ctx:
 
     def violation(self, key, what, replay):
         """key: structured signature of the failure (used for de-duplication and known-findings matching)"""
+        if key == 'harness':
+            # a sub-scenario could not establish its precondition on this tree (e.g. the tree refuses what the scenario needs
+            # first): that part is vacuous here, which is neither a violation of the property nor an error of the whole check
+            self.cov['scenario_preconditions_not_established'] = self.cov.get('scenario_preconditions_not_established', 0) + 1
+            if len(self.notes) < 6:
+                self.notes.append("vacuity: a scenario's precondition was not established: %s" % what)
+            return
         self.vcount += 1
         sz = len(repr(replay))
         if key not in self.violations or sz < self.violations[key]['size']:
